@@ -335,11 +335,17 @@ impl RunOut {
     fn sched_text(&self) -> String {
         if self.trace.is_empty() { "-".into() } else { self.trace.iter().map(|t| t.0.to_string()).collect::<Vec<_>>().join(".") }
     }
-    /// in the notation of the model driver's answer
+    /// in the notation of the model driver's answer; the enabled sets only when a controller saw them
     fn text(&self) -> String {
         let trace: Vec<String> = self.trace.iter().map(|t| t.1.text()).collect();
         let results: Vec<String> = self.results.iter().map(|r| r.join(";")).collect();
-        format!("{}|{}|{}", trace.join("."), results.join("/"), self.outcome.text())
+        let base = format!("{}|{}|{}", trace.join("."), results.join("/"), self.outcome.text());
+        if self.enabled.len() == self.trace.len() && !self.trace.is_empty() {
+            let en: Vec<String> = self.enabled.iter().map(|e| e.iter().map(|i| i.to_string()).collect::<String>()).collect();
+            format!("{}|{}", base, en.join("."))
+        } else {
+            base
+        }
     }
 }
 
@@ -465,6 +471,7 @@ fn report_hang_and_die() -> ! {
 }
 
 pub fn run_schedule(su: &Setup, mode: SchedMode, chooser: &mut dyn FnMut(usize, &[usize], &[Pos]) -> Option<usize>) -> Result<RunOut, String> {
+    beat();
     let po = if su.tolerant { ParseOptions::tolerant() } else { ParseOptions::strict() };
     macro_rules! go {
         ($oc:expr, $sc:expr, $computed:expr) => {{
@@ -658,7 +665,9 @@ fn flush(driver: &Driver, st: &mut RStream, batch: &mut Batch) {
     let imps = std::mem::take(&mut batch.impls);
     let resp = driver.ask(&reqs);
     for ((rq, m), i) in reqs.iter().zip(resp.iter()).zip(imps.iter()) {
-        st.case(rq, m, i, true);
+        // OS-scheduled runs (and empty schedules) have no record of the enabled sets: compare the rest
+        let m2 = if i.matches('|').count() == 2 { m.rsplitn(2, '|').nth(1).unwrap_or(m).to_string() } else { m.clone() };
+        st.case(rq, &m2, i, true);
     }
 }
 
@@ -910,11 +919,19 @@ fn report_from_json(v: &Value) -> Report {
 }
 
 static HEARTBEAT: std::sync::atomic::AtomicU64 = std::sync::atomic::AtomicU64::new(0);
+static BORN: std::sync::OnceLock<Instant> = std::sync::OnceLock::new();
+
+/// tell the in-process watchdog that the work goes on
+fn beat() {
+    if let Some(b) = BORN.get() {
+        HEARTBEAT.store(b.elapsed().as_millis() as u64, std::sync::atomic::Ordering::Relaxed);
+    }
+}
 
 fn child_work(driver: &Driver, seed: u64, thorough: bool, progress_path: &str, only: Option<&Value>) -> Report {
     use std::sync::atomic::Ordering;
     install_hook();
-    let born = Instant::now();
+    let born = *BORN.get_or_init(Instant::now);
     // in-process watchdog: every case reports progress; none for a minute = some threads never finish
     std::thread::spawn(move || loop {
         std::thread::sleep(Duration::from_millis(500));
